@@ -887,6 +887,11 @@ impl img::DiskImage for Td0 {
     }
     fn to_bytes(&mut self) -> Vec<u8> {
         let mut ans: Vec<u8> = Vec::new();
+        // the comment flag has to agree with whether a comment block is written
+        match (&self.comment_header,&self.comment_data) {
+            (Some(_),Some(_)) => self.header.stepping |= COMMENT_MASK,
+            _ => self.header.stepping &= COMMENT_MASK ^ u8::MAX
+        }
         self.header.crc = u16::to_le_bytes(crc16(0,&self.header.to_bytes()[0..10]));
         ans.append(&mut self.header.to_bytes());
         match (self.comment_header.as_mut(),self.comment_data.as_ref()) {
